@@ -1316,6 +1316,12 @@ def sweep(cases, stream, findings, stats, max_findings=4):
 
             small = shrink(case, still)
             (r2, m2), = evaluate_cases([small])
+            if r2["obs"] == m2:          # must reproduce when run alone
+                small = case
+                (r2, m2), = evaluate_cases([small])
+                if r2["obs"] == m2:
+                    raise Infra("C07: a disagreement seen in a batch does not reproduce in isolation: "
+                                + json.dumps(case)[:300])
             findings.append(Finding("correspondence",
                                     "model and labrea disagree on a history (%s stream)" % stream,
                                     {"case": small, "impl_obs": r2["obs"], "model_obs": m2, "fails": r2["fails"],
@@ -1329,6 +1335,12 @@ def sweep(cases, stream, findings, stats, max_findings=4):
 
             small = shrink(case, still2)
             (r2, m2), = evaluate_cases([small])
+            if not r2["fails"]:          # must reproduce when run alone
+                small = case
+                (r2, m2), = evaluate_cases([small])
+                if not r2["fails"]:
+                    raise Infra("C07: an oracle failure seen in a batch does not reproduce in isolation: "
+                                + json.dumps(case)[:300])
             payload = {"case": small, "impl_obs": r2["obs"], "model_obs": m2, "fails": r2["fails"],
                        "stream": stream}
             kid = classify(payload)
